@@ -37,6 +37,11 @@
 //!   tk SIG MS N          `trap 'echo trapsig' SIG; nap MS N & kill -s SIG $!`  (the child inherits SIG blocked; the
 //!                        signal is pending until the child's entry step unblocks it, where it kills the child)
 //!   tkg SIG MS N         the same with `( exit 0 )` between the fork and the kill (either order of kill and entry step)
+//!   ts SIG N             `trap 'echo trapsig' SIG; ( kill -s SIG $$; ( exit 0 ); exit N ) & wait $!`  (no virtual time: the job
+//!                        sends the trapped signal, passes a blocking point and exits; by schedule the signal and SIGCHLD
+//!                        reach the blocked `wait` in one wake-up or in two — the trap wins either way: 384+SIG, job not
+//!                        waited for)
+//!   tsn SIG N            the same without `( exit 0 )`: signal and SIGCHLD always arrive in ONE wake-up
 //!   ti                   `trap '' USR2; kill -s USR2 $$`
 //!   scp N                the same with `nap 300 N | drain` (the first member of a pipeline is stopped and continued)
 //!   sc N                 (first statement only) a foreground `( nap 300; exit N )` stopped and continued by a
@@ -694,6 +699,19 @@ fn render_stmt(t: &str, nasync: &mut usize) -> Option<String> {
                 *nasync
             )
         }
+        [t @ ("ts" | "tsn"), sig, n] if SIGNALS.contains(sig) => {
+            // the job sends the trapped signal to the shell (which is blocked in `wait` by then: the shell does not
+            // yield between the fork and the `wait`), then — `ts` — waits for a subshell of its own, then exits
+            *nasync += 1;
+            format!(
+                "trap 'echo trap{}' {sig}\n( kill -s {sig} $$; {}exit {} ) & j{}=$!\nwait $j{}",
+                sig.to_lowercase(),
+                if *t == "ts" { "( exit 0 ); " } else { "" },
+                num(n)?,
+                *nasync,
+                *nasync
+            )
+        }
         ["ti"] => "trap '' USR2; kill -s USR2 $$".to_string(),
         ["gj", k] => format!("( wait $j{} )", k.parse::<usize>().ok().filter(|k| *k >= 1 && *k <= *nasync)?),
         ["wx"] => "wait -x".to_string(),
@@ -1092,6 +1110,30 @@ fn gen_jobs_program(r: &mut Rng, thorough: bool) -> String {
                 }
                 continue;
             }
+            12 if nopen < 3 => {
+                // `wait` interrupted by a trapped signal that the awaited job itself sends just before it exits: no
+                // virtual time passes (something is runnable throughout), napping jobs stay certainly alive
+                new_job(&mut jobs, &mut epoch, JKind::Other, monitor);
+                let k = jobs.len();
+                let sig = *r.pick(&["USR1", "INT", "TERM", "HUP"]);
+                trapped.push(sig);
+                stmts.push(format!("{} {sig} {st}", if r.chance(2, 3) { "ts" } else { "tsn" }));
+                if r.chance(2, 3) {
+                    // … and waited for again at once: its status, not 127
+                    for j in jobs.iter_mut() {
+                        j.fresh = false;
+                    }
+                    jobs[k - 1].open = false;
+                    if jobs.iter().all(|j| !j.open) {
+                        epoch.clear();
+                        clean = true;
+                    } else {
+                        clean = false;
+                    }
+                    stmts.push(format!("wj {k}"));
+                }
+                continue;
+            }
             12 => (if r.chance(1, 2) { "ti" } else { "wx" }).to_string(),
             13 if !jobs.is_empty() => format!("gj {}", 1 + r.below(jobs.len())),
             14 => {
@@ -1276,6 +1318,21 @@ fn gen_program(r: &mut Rng, thorough: bool) -> String {
                 if r.chance(1, 2) { format!("gb {st}") } else { format!("qb {st}") }
             }
             16 if room >= 3 => format!("gw {st} {}", r.pick(&STATUSES)),
+            17 if room >= 3 && r.chance(1, 2) => {
+                // `wait` interrupted by a trapped signal sent by the awaited job itself, which exits right after
+                nasync += 1;
+                open.push(nasync);
+                live += 3;
+                weight.push(3);
+                let sig = *r.pick(&["USR1", "INT", "TERM", "HUP"]);
+                stmts.push(format!("{} {sig} {st}", if r.chance(2, 3) { "ts" } else { "tsn" }));
+                if r.chance(2, 3) {
+                    open.pop();
+                    live = open.iter().map(|k| weight[*k]).sum();
+                    stmts.push(format!("wj {nasync}"));
+                }
+                continue;
+            }
             17 if r.chance(1, 3) => (if r.chance(1, 2) { "wx" } else { "ti" }).to_string(),
             17 => format!("q {st}"),
             18 => format!("qe {} {st}", r.pick(&WORDS)),
@@ -1296,7 +1353,14 @@ fn gen_program(r: &mut Rng, thorough: bool) -> String {
     stmts.join("; ")
 }
 
-const FIXED_PROGRAMS: [&str; 45] = [
+const FIXED_PROGRAMS: [&str; 52] = [
+    "ts USR1 3; wj 1; w",
+    "tsn USR1 3; wj 1; w",
+    "bg s3; ts TERM 7; wj 2; wj 1; w",
+    "ts HUP 0; ts HUP 5; wj 2 1; w",
+    "bn 1000 7; ts INT 4; k TERM 1; wj 2; wj 1; w",
+    "m1; ts USR1 300; wj 1; m0; tsn USR1 2; w",
+    "bg s1; bg s2; tsn TERM 9; wj 3 1; w",
     "fd - - 2",
     "fd - - 5",
     "fd 0 - 3; fd 1 - 3; fd 01 - 4",
